@@ -20,7 +20,8 @@ def scenarios(pid, tier, seed):
         return api_scen.fam_pipeline_fail(seed, big)
     if pid == "C12":
         return (api_scen.fam_handles(seed, big) + api_scen.fam_pipelines(seed, False)[::6]
-                + api_scen.fam_pipeline_fail(seed, False)[::(3 if big else 9)])
+                + api_scen.fam_pipeline_fail(seed, False)[::(3 if big else 9)]
+                + [x for x in api_scen.fam_pipeline_fail(seed, False) if x.get("noisy") or "own_stderr" in x])
     if pid == "C08":
         return api_scen.fam_pipelines(seed, False)[::2]
     raise ToolError("no api scenarios for " + pid)
